@@ -120,6 +120,7 @@ fn scale_wide() -> BoxedStrategy<i64> {
         2 => -3000i64..=3000,
         1 => -20_000i64..=20_000,
         1 => -1_000_000_000_000_000i64..=1_000_000_000_000_000,
+        1 => gen::pow2_scale(),
     ]
     .boxed()
 }
